@@ -13,7 +13,11 @@ import vlib
 
 
 def quiet_warp():
+  import warnings
+
   import warp as wp
+
+  warnings.filterwarnings("ignore", category=UserWarning)
 
   try:
     wp.config.log_level = 30  # warnings only
